@@ -286,6 +286,9 @@ func (self *TransparencyBinaryServerProtocol) Close() error {
 			}
 		}
 		self.glock.Lock()
+		if err != nil || clientProtocol == nil {
+			self.serverProtocol.willCommands = willCommands
+		}
 	}
 
 	if self.clientProtocol != nil {
@@ -983,6 +986,9 @@ func (self *TransparencyTextServerProtocol) Close() error {
 			}
 		}
 		self.glock.Lock()
+		if err != nil || clientProtocol == nil {
+			self.serverProtocol.willCommands = willCommands
+		}
 	}
 
 	if self.clientProtocol != nil {
